@@ -26,7 +26,7 @@ RULE = (
 )
 ASSUMPTIONS = [
     "no parameter rests on a limit (limits are not declared here; C06 covers them)",
-    "covariance tolerance |C - C_ref|_ij / sqrt(C_ii C_jj): linear problems 5e-3 (scipy) / max(5e-3, 5e-8 cond) (iminuit HESSE); nonlinear problems 3e-2 (scipy) / 1e-1 (iminuit HESSE at strategy 1)",
+    "covariance tolerance |C - C_ref|_ij / sqrt(C_ii C_jj): linear problems 5e-3 (scipy) / max(5e-3, 2e-7 cond) (iminuit HESSE; after fixing / releasing a parameter MINUIT re-uses its previous state: 1e-1 as in the nonlinear case); nonlinear problems 3e-2 (scipy) / 1e-1 (iminuit HESSE at strategy 1)",
     "profile points within 1e-3 + 1e-3 * rise of the reference profile (5e-3 for scipy); asymmetric errors: reference rise 1 +- 3e-2 (iminuit MINOS) / 6e-2 (scipy); contour points: rise within [0.8, 1.25] n^2",
     "error band relative 2e-3 + the analytic bound of the implementation's numerical parameter derivative; problems whose reference Hessian has cond > 1e4 are discarded (MINUIT's HESSE / MNPROFILE lose accuracy in proportion to it)",
 ]
@@ -201,6 +201,35 @@ def _ref_profile_from(cost, q_start, others, pinned, sig):
 
 
 # ------------------------------------------------------------------ adapter-level cases
+class ScipyRecorder:
+    """records the success flag of every scipy.optimize.minimize call kafe2's scipy adapter makes while the context is active
+    (explain-check for the open finding 'the adapter hands out results scipy itself flags as failed')"""
+
+    def __enter__(self):
+        import kafe2.core.minimizers.scipy_optimize_minimizer as som
+
+        self.som, self.orig, self.flags = som, som.opt.minimize, []
+
+        def wrapped(*a, **kw):
+            res = self.orig(*a, **kw)
+            self.flags.append(bool(getattr(res, "success", True)))
+            return res
+
+        self.wrapped = wrapped
+        som.opt.minimize = wrapped
+        return self
+
+    def __exit__(self, *exc):
+        self.som.opt.minimize = self.orig
+        return False
+
+    def flag_for_point(self, k, n):
+        # the profile ends with one constrained minimisation per grid point, in grid order
+        if len(self.flags) < n:
+            return None
+        return self.flags[len(self.flags) - n + k]
+
+
 def run_adapter(ctx, case):
     from kafe2.core.minimizers import get_minimizer
 
@@ -311,7 +340,7 @@ def run_fit_case(ctx, case):
     cm = np.array(cm, dtype=float)
     dev = np.abs(cm - C) / np.outer(ss, ss)
     if linear:
-        tol = 5e-3 if minimizer == "scipy" else max(5e-3, 5e-8 * cond)
+        tol = 5e-3 if minimizer == "scipy" else max(5e-3, 2e-7 * cond)
     else:
         tol = 3e-2 if minimizer == "scipy" else 1e-1
     d = {"minimizer": minimizer, "linear": linear, "cond": cond, "fixed": case["fixed"]}
@@ -344,9 +373,14 @@ def run_fit_case(ctx, case):
     if case["extras"]["profile"]:
         for i in free_idx[: 3 if ctx.tier == "quick" else len(free_idx)]:
             ctx.op("profile")
+            rec = ScipyRecorder() if minimizer == "scipy" else None
             try:
                 with time_limit(60):
-                    prof, _arrows = fit._fitter.profile(names[i], sigma=2.0, size=7, subtract_min=False)
+                    if rec:
+                        with rec:
+                            prof, _arrows = fit._fitter.profile(names[i], sigma=2.0, size=7, subtract_min=False)
+                    else:
+                        prof, _arrows = fit._fitter.profile(names[i], sigma=2.0, size=7, subtract_min=False)
             except OpTimeout:
                 ctx.discard("profile-timeout")
                 continue
@@ -366,7 +400,8 @@ def run_fit_case(ctx, case):
                     ctx.discard("reference-profile-not-finite")
                     continue
                 rise = max(r - c_hat, 0.0)
-                ctx.check("profile-point", abs(yv - r) <= ptol + ptol * rise, lambda: dict(d, parameter=names[i], x=float(xv), got=float(yv), expected=r, rise=rise, tolerance=ptol + ptol * rise))
+                ctx.check("profile-point", abs(yv - r) <= ptol + ptol * rise, lambda: dict(d, parameter=names[i], x=float(xv), got=float(yv), expected=r, rise=rise, tolerance=ptol + ptol * rise, scipy_success=(rec.flag_for_point(kk, len(xs)) if rec else None)),
+                          key=(lambda: "C06/scipy-backend-accepts-unconverged-result" if (rec and yv > r and rec.flag_for_point(kk, len(xs)) is False) else None))
                 ctx.worst["profile_dev_" + minimizer] = max(ctx.worst.get("profile_dev_" + minimizer, 0.0), float(abs(yv - r) / (1.0 + rise)))
             if sum(ctx._wit_per_key.values()) != nv:
                 return nontrivial
@@ -464,7 +499,11 @@ def run_fit_case(ctx, case):
                 except Exception:
                     pts = None
         if pts is not None:
+            lims = case.get("limited") or {}
             for (xv, yv) in pts:
+                if any(nm in lims and min(abs(v - lims[nm][0]), abs(v - lims[nm][1])) <= 1e-3 * (lims[nm][1] - lims[nm][0]) for nm, v in ((names[i], xv), (names[j], yv))):
+                    ctx.discard("contour-point-on-a-declared-limit")  # the contour is cut off by the limit there
+                    continue
                 r = ref_profile_value(cost, p_hat, free_idx, {i: float(xv), j: float(yv)}, sig)
                 if not np.isfinite(r):
                     ctx.discard("reference-profile-not-finite")
@@ -519,7 +558,8 @@ def run_fit_case(ctx, case):
             pe2 = np.array(fit.parameter_errors, dtype=float)
             dev2 = np.abs(cm2 - C2) / np.outer(ss, ss)
             d2 = dict(d, fixed_after_fit=names[k])
-            ctx.check("cov=2Hinv.after-fix", bool(np.all(dev2 <= tol)), lambda: dict(d2, got=cm2, expected=C2, max_normalised_deviation=float(dev2.max()), tolerance=tol))
+            tol2 = tol if minimizer == "scipy" else max(tol, 1e-1)  # HESSE started from the state MINUIT kept from the previous parameter set
+            ctx.check("cov=2Hinv.after-fix", bool(np.all(dev2 <= tol2)), lambda: dict(d2, got=cm2, expected=C2, max_normalised_deviation=float(dev2.max()), tolerance=tol2))
             ctx.check("errors=sqrt-diag.after-fix", bool(np.all(np.abs(pe2 - np.sqrt(np.diag(cm2))) <= 1e-3 * ss + 1e-12)), lambda: dict(d2, errors=pe2, sqrt_diag_cov=np.sqrt(np.diag(cm2))))
             cor2 = fit.parameter_cor_mat
             if cor2 is not None and len(rest) >= 2:
@@ -539,7 +579,7 @@ def run_fit_case(ctx, case):
             cm3 = np.array(fit.parameter_cov_mat, dtype=float)
             pe3 = np.array(fit.parameter_errors, dtype=float)
             dev3 = np.abs(cm3 - C) / np.outer(ss, ss)
-            ctx.check("cov=2Hinv.after-release", bool(np.all(dev3 <= tol)), lambda: dict(d2, got=cm3, expected=C, max_normalised_deviation=float(dev3.max()), tolerance=tol))
+            ctx.check("cov=2Hinv.after-release", bool(np.all(dev3 <= tol2)), lambda: dict(d2, got=cm3, expected=C, max_normalised_deviation=float(dev3.max()), tolerance=tol2))
             ctx.check("errors=sqrt-diag.after-release", bool(np.all(np.abs(pe3 - np.sqrt(np.diag(cm3))) <= 1e-3 * ss + 1e-12)), lambda: dict(d2, errors=pe3, sqrt_diag_cov=np.sqrt(np.diag(cm3))))
         except Exception as e:
             if numerical_failure(e):
